@@ -20,6 +20,9 @@ REGISTRY = {
     "C14": ("harness.checks.slobo_check", "C14"),
     "C07": ("harness.checks.eval_check", "C07"),
     "C09": ("harness.checks.sobolev_check", "C09"),
+    "C08": ("harness.checks.m0_check", "C08"),
+    "C03": ("harness.checks.c03_check", "C03"),
+    "C20": ("harness.checks.twolevel_check", "C20"),
     "C04": ("harness.checks.pair_checks", "C04"),
     "C11": ("harness.checks.pair_checks", "C11"),
     "C12": ("harness.checks.pair_checks", "C12"),
